@@ -5,6 +5,27 @@
   document `es` in which every comment is an entry `(ph, .lit (.bare ph))`, written as the single word `ph`.
   `parseRest` (newline removal, literal extraction, expression extraction, tokenizing, scanning, literal re-insertion,
   `_clean`, removal of the documentation keys) returns the meaning `denPEs es []` of that document.
+
+    1  `TokOK'`, `lex_tok'`, `lex_spread'`, `labelled_no_dollar'`
+           the literal stage for words that are merely free of quote, backslash, `$` and white space
+    2  `pwf_cons`, `srcToksPEs_ok`, `label_toksPEs`, `labelled_wfPEs`
+           the tokens of a `SrcPWFEs` document are admissible; `labelEs` commutes with the comment entries
+    3  `tokOK'_ends`, `core_shape'`, `normalise_toks`
+           newline removal and `strip`, for any admissible token list (a comment may come first or last)
+    4  `parseRest_eq`, `parseBlockSt_labelled`
+           `C12.parseBlockSt_plain` with comment entries anywhere, from any lexer state
+    5  `drawnPEs_clean`, `relPEs`, `insert_literals_labelled`
+           `C02.insert_literals` with comment entries at any dict level
+    6  `parseRest_labelled` (the main theorem), `parseRest_labelled_counter` (counter spelled out),
+       `parseRest_labelled_clean` (uses `DocKeysAbsentP`: no `dropDocKeys` left; `cleanLevel_keys`, `cleanRec_keys`,
+       `clean_keys`: `_clean` only deletes keys; `denP_keys`, `denP_lookup_none`, `dropDocKeys_clean`)
+    7  `read_commented_of_stages` (+ `_counter`), `denC_eq`, `restSD_denC`, `read_commented_denC`,
+       `countQuoted_labelI`, `docKeys_label`, `counter_labelI`, `read_commented_denC'`
+           the whole reader, given what the comment stages produce
+    8  `exItems`, `exP`, … `ex_parseRest`, `ex_parseRest_eval`, `ex_restSD`, `ex_denC`     a concrete instance
+
+  Hypotheses beyond the ones asked for: none.  (`DocKeysAbsentP` is not needed by `parseRest_labelled` as stated,
+  with `dropDocKeys` in the result; it is what `parseRest_labelled_clean` uses to remove it.)
 -/
 import DictIO.Props.C12hdr
 import DictIO.Model.GrammarC
@@ -540,6 +561,181 @@ theorem parseRest_labelled {es : SrcEntries} {gaps : List Str} {tail : Str} {st 
                { sd with data := dropDocKeys sd.data }, c') :=
   ⟨_, parseRest_labelled_counter h hg ht hl he hc hn⟩
 
+/-! ### `_clean` only deletes entries; without the documentation keys in the text `dropDocKeys` is the identity -/
+
+theorem foldl_inv {α β : Type} (P : β → Prop) (f : β → α → β) :
+    ∀ (l : List α), (∀ b, P b → ∀ a ∈ l, P (f b a)) → ∀ b, P b → P (l.foldl f b)
+  | [], _, b, hb => hb
+  | a :: l, hf, b, hb =>
+    foldl_inv P f l (fun b hb a ha => hf b hb a (List.mem_cons_of_mem _ ha)) _ (hf b hb a List.mem_cons_self)
+
+theorem keys_delKey_sub {k x : Key} {es : Entries} (h : x ∈ keys (delKey k es)) : x ∈ keys es :=
+  ((C07.delKey_sublist k es).map (·.1)).subset h
+
+/-- `_clean_data` on one level only deletes keys -/
+theorem cleanLevel_keys (s : SD) (lvl : Entries) : ∀ x ∈ keys (cleanLevel s lvl).2, x ∈ keys lvl := by
+  intro x hx
+  simp only [cleanLevel] at hx
+  have step : ∀ {β : Type} (f : Entries × β → Key → Entries × β) (l : List Key) (init : Entries × β),
+      x ∈ keys (l.foldl f init).1 → (∀ acc k, (f acc k).1 = acc.1 ∨ (f acc k).1 = delKey k acc.1) →
+      x ∈ keys init.1 := by
+    intro β f l init hx hf
+    revert hx
+    refine foldl_inv (fun acc => x ∈ keys acc.1 → x ∈ keys init.1) _ l ?_ init id
+    intro acc hacc k _ hk
+    apply hacc
+    rcases hf acc k with e | e
+    · rw [e] at hk; exact hk
+    · rw [e] at hk; exact keys_delKey_sub hk
+  have h3 := step _ _ _ hx (by
+    intro acc k
+    cases k with
+    | int z => exact Or.inl rfl
+    | str w =>
+      simp only
+      split
+      · exact Or.inl rfl
+      · split
+        · exact Or.inl rfl
+        · split
+          · exact Or.inr rfl
+          · exact Or.inl rfl)
+  have h2 := step _ _ _ h3 (by
+    intro acc k
+    cases k with
+    | int z => exact Or.inl rfl
+    | str w =>
+      simp only
+      split
+      · exact Or.inl rfl
+      · split
+        · exact Or.inl rfl
+        · split
+          · exact Or.inr rfl
+          · exact Or.inl rfl)
+  exact step _ _ _ h2 (by
+    intro acc k
+    cases k with
+    | int z => exact Or.inl rfl
+    | str w =>
+      simp only
+      split
+      · exact Or.inl rfl
+      · split
+        · exact Or.inl rfl
+        · split
+          · exact Or.inr rfl
+          · exact Or.inl rfl)
+
+/-- `_clean` (all levels) only deletes keys of the level it is called on -/
+theorem cleanRec_keys : ∀ (fuel : Nat) (s : SD) (lvl : Entries), ∀ x ∈ keys (cleanRec fuel s lvl).2, x ∈ keys lvl
+  | 0, s, lvl, x, hx => hx
+  | fuel + 1, s, lvl, x, hx => by
+    simp only [cleanRec] at hx
+    apply cleanLevel_keys s lvl
+    revert hx
+    refine foldl_inv (fun (acc : SD × Entries) => x ∈ keys acc.2 → x ∈ keys (cleanLevel s lvl).2) _ _ ?_ _ id
+    intro acc hacc e he hx
+    cases hv : e.2 with
+    | dict sub =>
+      simp only [hv] at hx
+      rcases C02.Main.keys_setKey_sub hx with rfl | hx
+      · exact List.mem_map_of_mem he
+      · exact hacc hx
+    | leaf a => simp only [hv] at hx; exact hacc hx
+    | list xs => simp only [hv] at hx; exact hacc hx
+
+theorem clean_keys (s : SD) : ∀ x ∈ keys s.clean.data, x ∈ keys s.data := by
+  intro x hx
+  exact cleanRec_keys _ s s.data x (by simpa only [SD.clean] using hx)
+
+/-- every key of the meaning of a labelled document was there, is a comment placeholder word, or the typed form of
+    a written key -/
+theorem denP_keys (key : Key) : ∀ (es : SrcEntries) (acc : Entries), key ∈ keys (denPEs es acc) →
+    key ∈ keys acc ∨ ∃ e ∈ es, (isPhTok e.1 = true ∧ key = .str e.1) ∨
+      (isPhTok e.1 = false ∧ keyOfScalar (parseKey e.1) = some key)
+  | [], acc, h => Or.inl (by simpa only [denPEs] using h)
+  | (k, v) :: es, acc, h => by
+    have lift : (∃ e ∈ es, (isPhTok e.1 = true ∧ key = .str e.1) ∨
+        (isPhTok e.1 = false ∧ keyOfScalar (parseKey e.1) = some key)) →
+        ∃ e ∈ (k, v) :: es, (isPhTok e.1 = true ∧ key = .str e.1) ∨
+          (isPhTok e.1 = false ∧ keyOfScalar (parseKey e.1) = some key) :=
+      fun ⟨e, he, hk⟩ => ⟨e, List.mem_cons_of_mem _ he, hk⟩
+    cases hp : isPhTok k with
+    | true =>
+      rw [denPEs_cons_ph hp] at h
+      rcases denP_keys key es _ h with h | h
+      · rcases C02.Main.keys_setKey_sub h with rfl | h
+        · exact Or.inr ⟨(k, v), List.mem_cons_self, Or.inl ⟨hp, rfl⟩⟩
+        · exact Or.inl h
+      · exact Or.inr (lift h)
+    | false =>
+      cases hko : keyOfScalar (parseKey k) with
+      | none =>
+        simp only [denPEs, hp, Bool.false_eq_true, if_false, hko] at h
+        rcases denP_keys key es acc h with h | h
+        · exact Or.inl h
+        · exact Or.inr (lift h)
+      | some key' =>
+        rw [denPEs_cons hp hko] at h
+        rcases denP_keys key es _ h with h | h
+        · rcases C02.Main.keys_setKey_sub h with rfl | h
+          · exact Or.inr ⟨(k, v), List.mem_cons_self, Or.inr ⟨hp, hko⟩⟩
+          · exact Or.inl h
+        · exact Or.inr (lift h)
+
+theorem pwf_keys {d : Nat} : ∀ {es : SrcEntries}, SrcPWFEs d es = true → ∀ e ∈ es, isPhTok e.1 = false →
+    isSrcWord e.1 = true
+  | [], _, e, he, _ => by cases he
+  | (k, v) :: es, h, e, he, hp => by
+    obtain ⟨h1, hes⟩ := pwf_cons h
+    rcases List.mem_cons.mp he with rfl | he
+    · rcases h1 with ⟨hp', _⟩ | ⟨_, hk, _⟩
+      · rw [hp'] at hp; cases hp
+      · exact hk
+    · exact pwf_keys hes e he hp
+
+/-- a string key that is not written at the top level is not in the meaning -/
+theorem denP_lookup_none {d : Nat} {es : SrcEntries} (h : SrcPWFEs d es = true) {s : Str} (hs : ∀ e ∈ es, e.1 ≠ s) :
+    lookup (.str s) (denPEs es []) = none := by
+  rw [lookup_eq_none_iff]
+  intro hm
+  rcases denP_keys _ es [] hm with hm | ⟨e, he, ⟨_, hk⟩ | ⟨hp, hk⟩⟩
+  · simp [keys] at hm
+  · cases hk; exact hs e he rfl
+  · rcases C02.Main.typedKey_cases (pwf_keys h e he hp) hk with ⟨z, hz⟩ | hz
+    · cases hz
+    · cases hz; exact hs e he rfl
+
+/-- without the two documentation keys in the text, their removal after `_clean` is the identity -/
+theorem dropDocKeys_clean {d : Nat} {es : SrcEntries} (h : SrcPWFEs d es = true) (hd : DocKeysAbsentP es) (s : SD)
+    (hs : s.data = denPEs es []) : dropDocKeys s.clean.data = s.clean.data := by
+  apply C02.dropDocKeys_id
+  · rw [lookup_eq_none_iff]
+    intro hm
+    have := clean_keys s _ hm
+    rw [hs] at this
+    exact lookup_eq_none_iff.mp (denP_lookup_none h fun e he => (hd e he).1) this
+  · rw [lookup_eq_none_iff]
+    intro hm
+    have := clean_keys s _ hm
+    rw [hs] at this
+    exact lookup_eq_none_iff.mp (denP_lookup_none h fun e he => (hd e he).2) this
+
+/-- **`parseRest_labelled` without `dropDocKeys`**: when no top-level key of the labelled document is `_variables` or
+    `_includes`, the reader returns the cleaned meaning itself -/
+theorem parseRest_labelled_clean {es : SrcEntries} {gaps : List Str} {tail : Str} {st : LexSt}
+    (h : SrcPWFEs 1 es = true) (hg : GapsOKS (srcToksPEs es) gaps = true) (ht : tail.all isWs = true)
+    (hl : st.lits = []) (he : st.exprs = []) (hc : C13.ValidCounter Gen.counterLimit st.counter)
+    (hn : countQuotedEs' es ≤ Gen.counterLimit + 1) (hd : DocKeysAbsentP es) :
+    parseRest st (spreadS (srcToksPEs es) gaps tail) =
+      .ok (({ data := denPEs es [], exprs := [], lineC := st.lineC, blockC := st.blockC, incl := st.incl } : SD).clean,
+        C02.adv Gen.counterLimit (countQuotedEs' es) st.counter) := by
+  rw [parseRest_labelled_counter h hg ht hl he hc hn, restSD]
+  show Except.ok (_, _) = _
+  rw [dropDocKeys_clean h hd
+    ({ data := denPEs es [], exprs := [], lineC := st.lineC, blockC := st.blockC, incl := st.incl } : SD) rfl]
+
 /-! ## 7. corollaries: the whole reader, given what the comment stages produce -/
 
 /-- the reader on a commented text, given that its comment stages leave an admissible layout of a well-formed
@@ -603,5 +799,223 @@ theorem read_commented_denC {dir : Str} {c : Counter} {text : Str} {st : LexSt} 
       .ok ({ denC c items with data := dropDocKeys (denC c items).data },
         C02.adv Gen.counterLimit (countQuotedEs' (labelCItems { counter := c } items).2) st.counter) := by
   rw [parseNative_stages, hst, parseRest_labelled_counter h hg ht hl he hc hn, restSD_denC c items st h1 h2 hi]
+
+
+/-! ### the side conditions of `parseRest_labelled`, from the commented document -/
+
+mutual
+  theorem countQuoted_labelV : ∀ (v : CSrc) (st : CLabelSt),
+      C02.countQuotedV (labelCV st v).2 = C02.countQuotedV (plainV v)
+    | .lit l, st => by simp only [labelCV, plainV]
+    | .dict items, st => by
+      simp only [labelCV, plainV, C02.countQuotedV]
+      exact countQuoted_labelI items st
+    | .list xs, st => by simp only [labelCV, plainV]
+  /-- comment entries hold a bare word: the labelled document has the quoted strings of the comment-free one -/
+  theorem countQuoted_labelI : ∀ (items : List CItem) (st : CLabelSt),
+      countQuotedEs' (labelCItems st items).2 = C02.countQuotedEs (plainItems items)
+    | [], st => by simp only [labelCItems, plainItems]
+    | .entry k v :: r, st => by
+      simp only [labelCItems, plainItems, C02.countQuotedEs, countQuoted_labelV v st]
+      exact congrArg _ (countQuoted_labelI r _)
+    | .lineC x :: r, st => by
+      simp only [labelCItems, plainItems, C02.countQuotedEs, C02.countQuotedV, Nat.zero_add]
+      exact countQuoted_labelI r _
+    | .blockC x :: r, st => by
+      simp only [labelCItems, plainItems, C02.countQuotedEs, C02.countQuotedV, Nat.zero_add]
+      exact countQuoted_labelI r _
+end
+
+theorem docKey_heads : "_variables".toList = '_' :: "variables".toList ∧ "_includes".toList = '_' :: "includes".toList :=
+  ⟨by decide, by decide⟩
+
+/-- placeholder words are none of the documentation keys -/
+theorem docKeys_label : ∀ (items : List CItem) (st : CLabelSt), C02.DocKeysAbsent (plainItems items) →
+    DocKeysAbsentP (labelCItems st items).2
+  | [], st, _ => by simp only [labelCItems]; intro e he; cases he
+  | .entry k v :: r, st, h => by
+    simp only [labelCItems, plainItems] at h ⊢
+    intro e he
+    rcases List.mem_cons.mp he with rfl | he
+    · exact h (k, plainV v) List.mem_cons_self
+    · exact docKeys_label r _ (fun e he => h e (List.mem_cons_of_mem _ he)) e he
+  | .lineC x :: r, st, h => by
+    simp only [labelCItems, plainItems] at h ⊢
+    intro e he
+    rcases List.mem_cons.mp he with rfl | he
+    · have e1 : ∀ i, linePh i = 'L' :: ("INECOMMENT".toList ++ padSix i) := fun _ => rfl
+      simp only [e1]
+      exact ⟨fun h => absurd (List.cons.inj (h.trans docKey_heads.1)).1 (by decide),
+        fun h => absurd (List.cons.inj (h.trans docKey_heads.2)).1 (by decide)⟩
+    · exact docKeys_label r _ h e he
+  | .blockC x :: r, st, h => by
+    simp only [labelCItems, plainItems] at h ⊢
+    intro e he
+    rcases List.mem_cons.mp he with rfl | he
+    · have e1 : ∀ i, blockPh i = 'B' :: ("LOCKCOMMENT".toList ++ padSix i) := fun _ => rfl
+      simp only [e1]
+      exact ⟨fun h => absurd (List.cons.inj (h.trans docKey_heads.1)).1 (by decide),
+        fun h => absurd (List.cons.inj (h.trans docKey_heads.2)).1 (by decide)⟩
+    · exact docKeys_label r _ h e he
+
+mutual
+  theorem counter_labelV : ∀ (v : CSrc) (st : CLabelSt), C13.ValidCounter Gen.counterLimit st.counter →
+      C13.ValidCounter Gen.counterLimit (labelCV st v).1.counter
+    | .lit l, st, h => by simpa only [labelCV] using h
+    | .dict items, st, h => by simpa only [labelCV] using counter_labelI items st h
+    | .list xs, st, h => by simpa only [labelCV] using h
+  /-- the counter the comment stages leave is valid -/
+  theorem counter_labelI : ∀ (items : List CItem) (st : CLabelSt), C13.ValidCounter Gen.counterLimit st.counter →
+      C13.ValidCounter Gen.counterLimit (labelCItems st items).1.counter
+    | [], st, h => by simpa only [labelCItems] using h
+    | .entry k v :: r, st, h => by
+      simp only [labelCItems]
+      exact counter_labelI r _ (counter_labelV v st h)
+    | .lineC x :: r, st, h => by
+      simp only [labelCItems]
+      exact counter_labelI r _ (C13.next_valid h)
+    | .blockC x :: r, st, h => by
+      simp only [labelCItems]
+      exact counter_labelI r _ h
+end
+
+/-- **ready for composition**: the reader on a commented text is exactly `denC c items`, given that the comment stages
+    produce what `labelCItems` describes; side conditions stated on the commented document itself (its comment-free
+    part `plainItems items`), `dropDocKeys` gone -/
+theorem read_commented_denC' {dir : Str} {c : Counter} {text : Str} {st : LexSt} {items : List CItem}
+    {gaps' : List Str} {tail' : Str}
+    (hst : commentStages true dir c text =
+      (st, spreadS (srcToksPEs (labelCItems { counter := c } items).2) gaps' tail'))
+    (hl : st.lits = []) (he : st.exprs = []) (hi : st.incl = [])
+    (h0 : st.counter = (labelCItems { counter := c } items).1.counter)
+    (h1 : st.lineC = (labelCItems { counter := c } items).1.lineC)
+    (h2 : st.blockC = (labelCItems { counter := c } items).1.blockC)
+    (h : SrcPWFEs 1 (labelCItems { counter := c } items).2 = true)
+    (hg : GapsOKS (srcToksPEs (labelCItems { counter := c } items).2) gaps' = true) (ht : tail'.all isWs = true)
+    (hc : C13.ValidCounter Gen.counterLimit c)
+    (hn : C02.countQuotedEs (plainItems items) ≤ Gen.counterLimit + 1)
+    (hd : C02.DocKeysAbsent (plainItems items)) :
+    parseNative true dir c text =
+      .ok (denC c items, C02.adv Gen.counterLimit (C02.countQuotedEs (plainItems items)) st.counter) := by
+  have hc' : C13.ValidCounter Gen.counterLimit st.counter := by
+    rw [h0]; exact counter_labelI items { counter := c } hc
+  have hq := countQuoted_labelI items { counter := c }
+  rw [read_commented_denC hst hl he hi h1 h2 h hg ht hc' (by rw [hq]; exact hn), hq]
+  have hdk : dropDocKeys (denC c items).data = (denC c items).data :=
+    dropDocKeys_clean h (docKeys_label items _ hd)
+      ({ data := denPEs (labelCItems { counter := c } items).2 [],
+         lineC := (labelCItems { counter := c } items).1.lineC,
+         blockC := (labelCItems { counter := c } items).1.blockC } : SD) rfl
+  rw [hdk]
+
+/-! ## 8. non-vacuity -/
+
+/-- `// first⏎ a 'x y'; sub { /* inner */ p 1; } l ( 1 "two" );` -/
+def exItems : List CItem :=
+  [ .lineC " first".toList,
+    .entry ['a'] (.lit (.quoted '\'' "x y".toList)),
+    .entry "sub".toList (.dict [.blockC " inner ".toList, .entry ['p'] (.lit (.bare ['1']))]),
+    .entry ['l'] (.list [.lit (.bare ['1']), .lit (.quoted '"' "two".toList)]) ]
+
+/-- the labelled document: a line-comment entry at top level, a block-comment entry inside `sub` -/
+def exP : SrcEntries :=
+  [ ("LINECOMMENT000000".toList, .lit (.bare "LINECOMMENT000000".toList)),
+    (['a'], .lit (.quoted '\'' "x y".toList)),
+    ("sub".toList, .dict [("BLOCKCOMMENT000000".toList, .lit (.bare "BLOCKCOMMENT000000".toList)),
+                          (['p'], .lit (.bare ['1']))]),
+    (['l'], .list [.lit (.bare ['1']), .lit (.quoted '"' "two".toList)]) ]
+
+/-- the lexer state the comment stages leave (counter `none` at the start: the line comment drew id 0) -/
+def exSt : LexSt := { counter := some 0, lineC := [(0, "// first".toList)], blockC := [(0, "/* inner */".toList)] }
+
+theorem exItems_wf : CSrcWFItems 1 exItems = true := by decide +kernel
+theorem exP_wf : SrcPWFEs 1 exP = true := by decide +kernel
+
+theorem exItems_label : (labelCItems { counter := none } exItems).2 = exP ∧
+    (labelCItems { counter := none } exItems).1.counter = exSt.counter ∧
+    (labelCItems { counter := none } exItems).1.lineC = exSt.lineC ∧
+    (labelCItems { counter := none } exItems).1.blockC = exSt.blockC := by
+  have e1 : linePh 0 = "LINECOMMENT000000".toList := by rw [linePh, C02.padSix_zero]; decide
+  have e2 : blockPh 0 = "BLOCKCOMMENT000000".toList := by rw [blockPh, C02.padSix_zero]; decide
+  simp [exItems, exP, exSt, labelCItems, labelCV, Counter.next, Tbl.set, e1, e2]
+
+theorem exP_toks : srcToksPEs exP =
+    [.word "LINECOMMENT000000".toList, .word ['a'], .quoted '\'' "x y".toList, .word [';'], .word "sub".toList,
+     .word ['{'], .word "BLOCKCOMMENT000000".toList, .word ['p'], .word ['1'], .word [';'], .word ['}'], .word ['l'],
+     .word ['('], .word ['1'], .quoted '"' "two".toList, .word [')'], .word [';']] := by
+  have h1 : isPhTok "LINECOMMENT000000".toList = true := by decide
+  have h2 : isPhTok "BLOCKCOMMENT000000".toList = true := by decide
+  have h3 : isPhTok ['a'] = false := by decide
+  have h4 : isPhTok ['p'] = false := by decide
+  simp only [exP, srcToksPEs, srcToksXs, srcToksV, Lit.tok, h1, h2, h3, h4, if_true, Bool.false_eq_true, if_false,
+    List.cons_append, List.nil_append, List.append_nil]
+
+def exPGaps : List Str :=
+  [[], ['\n'], [' '], [], ['\n'], ['\n'], ['\n', ' ', ' ', ' '], [' ', '\n', ' ', ' '], [' '], [], ['\n'], ['\n'],
+   [' '], [], [' '], [], []]
+
+theorem exPGaps_ok : GapsOKS (srcToksPEs exP) exPGaps = true := by rw [exP_toks]; decide
+
+/-- what the comment stages leave of
+    `// first⏎a 'x y';⏎sub⏎{⏎  /* inner */⏎  p 1;⏎}⏎l (1 "two");⏎` (the block-comment placeholder blank-padded) -/
+def exPText : Str :=
+  "LINECOMMENT000000\na 'x y';\nsub\n{\n   BLOCKCOMMENT000000 \n  p 1;\n}\nl (1 \"two\");\n".toList
+
+theorem exP_text : spreadS (srcToksPEs exP) exPGaps ['\n'] = exPText := by rw [exP_toks]; decide
+
+theorem exP_count : countQuotedEs' exP = 2 := by decide
+theorem exP_docKeys : DocKeysAbsentP exP := by decide
+
+/-- the instance of the theorem -/
+theorem ex_parseRest : parseRest exSt exPText = .ok (restSD exSt exP, some 2) := by
+  have := parseRest_labelled_counter (st := exSt) (tail := ['\n']) exP_wf exPGaps_ok (by decide) rfl rfl
+    (Or.inr ⟨0, rfl, by decide⟩) (by rw [exP_count]; decide)
+  rw [exP_text, exP_count] at this
+  exact this
+
+/-- what the document means -/
+def exSD : SD :=
+  { data := [ (.str "LINECOMMENT000000".toList, .leaf (.str "LINECOMMENT000000".toList)),
+              (.str ['a'], .leaf (.str "x y".toList)),
+              (.str "sub".toList, .dict [ (.str "BLOCKCOMMENT000000".toList, .leaf (.str "BLOCKCOMMENT000000".toList)),
+                                          (.str ['p'], .leaf (.int 1)) ]),
+              (.str ['l'], .list [.leaf (.int 1), .leaf (.str "two".toList)]) ],
+    lineC := [(0, "// first".toList)], blockC := [(0, "/* inner */".toList)] }
+
+set_option synthInstance.maxSize 1000 in
+/-- the reader's stages evaluated on the text (kernel reduction, well-founded scanner included), field by field -/
+theorem ex_parseRest_fields :
+    (parseRest exSt exPText).toOption.map (fun r => (r.1.data, r.1.exprs, r.1.lineC, r.1.blockC, r.1.incl, r.2)) =
+      some (exSD.data, [], exSD.lineC, exSD.blockC, [], some 2) := by decide +kernel
+
+theorem ex_parseRest_eval : parseRest exSt exPText = .ok (exSD, some 2) := by
+  have h := ex_parseRest_fields
+  cases hr : parseRest exSt exPText with
+  | error e => rw [hr] at h; simp [Except.toOption] at h
+  | ok r =>
+    rw [hr] at h
+    obtain ⟨⟨d, x, l, b, i⟩, c⟩ := r
+    simp only [Except.toOption, Option.map_some, Option.some.injEq, Prod.mk.injEq] at h
+    obtain ⟨rfl, rfl, rfl, rfl, rfl, rfl⟩ := h
+    rfl
+
+/-- hence the meaning `restSD` assigns to the labelled document is the expected one: both comment entries are kept at
+    their levels, both table entries survive `_clean` -/
+theorem ex_restSD : restSD exSt exP = exSD := by
+  have := ex_parseRest.symm.trans ex_parseRest_eval
+  simp only [Except.ok.injEq, Prod.mk.injEq] at this
+  exact this.1
+
+/-- … and it is what the commented document `exItems` means -/
+theorem ex_denC : denC none exItems = exSD := by
+  have h := restSD_denC none exItems exSt exItems_label.2.2.1.symm exItems_label.2.2.2.symm rfl
+  have hdk : dropDocKeys (denC none exItems).data = (denC none exItems).data :=
+    dropDocKeys_clean (es := (labelCItems { counter := none } exItems).2)
+      (by rw [exItems_label.1]; exact exP_wf) (by rw [exItems_label.1]; exact exP_docKeys)
+      ({ data := denPEs (labelCItems { counter := none } exItems).2 [],
+         lineC := (labelCItems { counter := none } exItems).1.lineC,
+         blockC := (labelCItems { counter := none } exItems).1.blockC } : SD) rfl
+  rw [exItems_label.1, ex_restSD, hdk] at h
+  exact h.symm
 
 end DictIO.C12
